@@ -103,14 +103,25 @@ func (a *Agent) Start(p pool.Pool) error {
 		a.mu.Unlock()
 		return ErrAlreadyStarted
 	}
+	// Claim the agent before talking to the pool, so that a second Start is
+	// refused while this one is in flight or its update loop is running.
+	a.started = true
 	a.mu.Unlock()
+
+	// abort releases the claim when the start fails: nothing is left running.
+	abort := func(err error) error {
+		a.mu.Lock()
+		a.started = false
+		a.mu.Unlock()
+		return err
+	}
 
 	startCtx, cancel := context.WithTimeout(context.Background(), startTimeout)
 	defer cancel()
 
 	enode, err := a.EthNode.Enode(startCtx)
 	if err != nil {
-		return err
+		return abort(err)
 	}
 	ua := a.EthNode.UserAgent()
 	logger.Printf("Connected to local %s node: %s", ua.KindType(), enode)
@@ -129,7 +140,7 @@ func (a *Agent) Start(p pool.Pool) error {
 	a.nodeInfo = connectReq.NodeInfo
 	resp, err := p.Connect(startCtx, connectReq)
 	if err != nil {
-		return AgentPoolError{err, "Failed during pool connect request"}
+		return abort(AgentPoolError{err, "Failed during pool connect request"})
 	}
 	logger.Printf("Registered on pool: Version %s", resp.PoolVersion)
 
@@ -138,7 +149,7 @@ func (a *Agent) Start(p pool.Pool) error {
 	}
 
 	if err := a.UpdatePeers(startCtx, p); err != nil {
-		return err
+		return abort(err)
 	}
 
 	go func() {
@@ -172,6 +183,13 @@ func (a *Agent) serveUpdates(p pool.Pool) error {
 		interval = store.KeepaliveInterval
 	}
 
+	// Whichever way the loop ends, the agent can be started again afterwards.
+	defer func() {
+		a.mu.Lock()
+		a.started = false
+		a.mu.Unlock()
+	}()
+
 	ticker := time.Tick(interval)
 	for {
 		select {
@@ -180,10 +198,6 @@ func (a *Agent) serveUpdates(p pool.Pool) error {
 				return err
 			}
 		case <-a.stopCh:
-			a.mu.Lock()
-			a.started = false
-			a.mu.Unlock()
-
 			// FIXME: Does it make sense to call a.disconnectPeers(...) here?
 			return nil
 		}
